@@ -32,11 +32,19 @@ def verify_function(run, relfile, qual, make_contract, timeout_ms=10000, engine_
     # identical (pc, goal) pairs reached on several paths are solved once
     failed = []
     nfail = 0
+    seen = {}
     for o in obs:
         if nfail >= 3:
             # after three failures in one function the remaining ones are solved with a short budget
             eng.timeout_ms = 2000
-        st = eng.solve(o)
+        key = (tuple(sorted(c.get_id() for c in o.pc)), o.goal.get_id())
+        if key in seen:
+            p0 = seen[key]
+            o.status, o.backend, o.time_s = p0.status, p0.backend + " (same VC as an earlier path)", 0.0
+            st = o.status
+        else:
+            st = eng.solve(o)
+            seen[key] = o
         run.add_obligation(o.name, fq, st, o.backend, o.time_s, o.clause)
         if st != "proved":
             nfail += 1
